@@ -128,7 +128,7 @@ class C15(Check):
         return st.tuples(base, policies()).map(lambda t: dict(t[0], policies=t[1]))
 
     def examples(self, tier):
-        return 30 if tier == "quick" else 2500
+        return 15 if tier == "quick" else 2500
 
     def budget_s(self, tier):
         return 400.0 if tier == "quick" else 1700.0
